@@ -206,6 +206,15 @@ class Exec(CallsMixin, Interp):
                     continue
             raise Unsupported('del form (line %s)' % st.lineno)
 
+    def s_ImportFrom(self, st):
+        # function-local import: the imported names become opaque module-level names
+        for a in st.names:
+            self.w.module_names.add(a.asname or a.name)
+
+    def s_Import(self, st):
+        for a in st.names:
+            self.w.module_names.add((a.asname or a.name).split('.')[0])
+
     def s_Global(self, st):
         for n in st.names:
             if n not in self.p.globals:
